@@ -3,6 +3,7 @@ package simrt
 import (
 	"fmt"
 	"math/rand"
+	"os/exec"
 	"runtime/debug"
 	"sort"
 	"strings"
@@ -107,9 +108,11 @@ type Sim struct {
 	pctLow      int
 	delays      []*delayRule
 	delayedTill map[*Task]int
-	PermuteMaps bool   // map iteration order is drawn from the tape
-	LoopOverrun string // set when a task exhausted its loop budget (where)
-	AutoAdvance bool   // when nothing is runnable, jump the clock to the next timer
+	PermuteMaps bool                                    // map iteration order is drawn from the tape
+	LoopOverrun string                                  // set when a task exhausted its loop budget (where)
+	Zone        *time.Location                          // the machine's local time zone (nil: UTC); what time.Now() carries
+	StartFailFn func(parent *Proc, cmd *exec.Cmd) error // non-nil result: the process start fails with it
+	AutoAdvance bool                                    // when nothing is runnable, jump the clock to the next timer
 
 	muOwner map[any]*Task
 	rwRead  map[any]int
@@ -696,6 +699,9 @@ func Now() time.Time {
 	if s := S; s != nil {
 		if t := s.cur; t != nil {
 			t.LastNow = s.now
+		}
+		if s.Zone != nil {
+			return s.now.In(s.Zone) // time.Now() is in the machine's local zone
 		}
 		return s.now
 	}
